@@ -794,6 +794,7 @@ func runC08(c *an.Check) {
 	c.Rule("C08.R2", "message ScriptOut <- vout result of the same wallet call; on every success return of every implementation the vout originates from an output locator applied to the broadcast transaction and the swap script, never from a constant / zero value / unassigned result")
 	c.Rule("C08.R3", "message Payreq <- GetPayreq(GetClaimAmount()*1000, preimage whose Hash() is OpeningParams.ClaimPaymentHash, …, GetInvoiceExpiry(), GetInvoiceCltv()); constants 86400/3600 s and 503/29 blocks per chain")
 	c.Rule("C08.R4", "message BlindingKey <- hex of the key in OpeningParams.BlindingKey, empty exactly where that key is nil")
+	c.Rule("C08.R6", "the vout a CreateOpeningTransaction implementation returns is, followed through every in-module function on its value flow, the unmodified position (loop index) in the decoded transaction's own output list — not a position in a filtered / re-sliced / rebuilt list and not an index that went through arithmetic")
 	c.Rule("C08.R5", "a false verdict of GetVoutAndVerify is not used silently in CreateOpeningTransaction")
 	w := c.W
 	if !needEffects(c, fxOpenTx, fxGetPayreq) {
@@ -823,9 +824,11 @@ func runC08(c *an.Check) {
 	c08Message(c)
 	impls := c08Impls(c, walletT, "CreateOpeningTransaction")
 	c.AtLeast("C08.R1/R2", "implementations of swap.Wallet.CreateOpeningTransaction", len(impls), 3)
+	nIdx := 0
 	for _, fn := range impls {
 		c08ImplTxid(c, fn, []int{c08ResTxid}, "txid")
 		c08ImplVout(c, fn)
+		nIdx += c08ImplIndex(c, fn)
 	}
 	// the Liquid back-ends behind wallet.Wallet
 	if lw := w.Named("wallet", "Wallet"); lw == nil {
@@ -837,6 +840,7 @@ func runC08(c *an.Check) {
 			c08ImplTxid(c, fn, []int{0, 1}, "txid/rawTx")
 		}
 	}
+	c.AtLeast("C08.R6", "CreateOpeningTransaction implementations whose vout is traced to a loop index", nIdx, 3)
 	c08Verdict(c, impls)
 	c08InvoiceConstants(c)
 }
@@ -1783,4 +1787,408 @@ func c08ChainTable(w *an.World, v ssa.Value) (tbl map[string]int64, why string, 
 		}
 	}
 	return tbl, "", true
+}
+
+// ---- R6: the reported index is a position in the transaction's own output list ------------
+
+// c08Frame is one activation on the value flow of the vout: the function, the
+// call that entered it (nil for the outermost implementation) and the caller's
+// frame, so that a parameter can be bound to the argument it was given.
+type c08Frame struct {
+	fn     *ssa.Function
+	call   *ssa.Call
+	parent *c08Frame
+	depth  int
+}
+
+type c08IdxVerdict struct {
+	kind string // ok | bad | unknown
+	text string
+	pos  string
+}
+
+type c08IdxEval struct {
+	w    *an.World
+	seen map[[2]interface{}]bool
+	out  []c08IdxVerdict
+}
+
+func (e *c08IdxEval) add(kind, text, pos string) {
+	e.out = append(e.out, c08IdxVerdict{kind, text, pos})
+}
+
+// bind returns the argument given for parameter p of frame fr (nil if unknown).
+func (e *c08IdxEval) bind(p *ssa.Parameter, fr *c08Frame) (ssa.Value, *c08Frame) {
+	if fr == nil || fr.call == nil || fr.parent == nil {
+		return nil, nil
+	}
+	idx := -1
+	for i, q := range fr.fn.Params {
+		if q == p {
+			idx = i
+		}
+	}
+	args := fr.call.Call.Args
+	if fr.call.Call.IsInvoke() {
+		if idx == 0 {
+			return fr.call.Call.Value, fr.parent
+		}
+		idx--
+	}
+	if idx < 0 || idx >= len(args) {
+		return nil, nil
+	}
+	return args[idx], fr.parent
+}
+
+// c08Induction recognises `for i := c; …; i++` : phi[c, phi+1]; returns the phi's users that index a collection.
+func c08Induction(ph *ssa.Phi) *c08Loop {
+	init, step := false, false
+	for _, ed := range ph.Edges {
+		if _, ok := an.ConstInt(ed); ok {
+			init = true
+			continue
+		}
+		bo, ok := ed.(*ssa.BinOp)
+		if !ok || bo.Op != token.ADD || bo.X != ssa.Value(ph) {
+			return nil
+		}
+		if k, isK := an.ConstInt(bo.Y); !isK || k != 1 {
+			return nil
+		}
+		step = true
+	}
+	if !init || !step {
+		return nil
+	}
+	l := &c08Loop{elems: map[ssa.Value]bool{}}
+	var users func(v ssa.Value, depth int)
+	users = func(v ssa.Value, depth int) {
+		if v.Referrers() == nil || depth > 2 {
+			return
+		}
+		for _, r := range *v.Referrers() {
+			switch x := r.(type) {
+			case *ssa.IndexAddr:
+				if x.Index == v {
+					l.elems[x] = true
+					l.over = append(l.over, x.X)
+				}
+			case *ssa.Index:
+				if x.Index == v {
+					l.elems[x] = true
+					l.over = append(l.over, x.X)
+				}
+			case *ssa.Convert:
+				users(x, depth+1)
+			}
+		}
+	}
+	users(ph, 0)
+	if len(l.over) == 0 {
+		return nil
+	}
+	return l
+}
+
+// index follows the value that is reported as the output index.
+func (e *c08IdxEval) index(v ssa.Value, fr *c08Frame) {
+	key := [2]interface{}{v, fr.fn}
+	if e.seen[key] {
+		return
+	}
+	e.seen[key] = true
+	w := e.w
+	pos := "-"
+	if in, ok := v.(ssa.Instruction); ok {
+		pos = w.Pos(in.Pos())
+	}
+	enter := func(c *ssa.Call, ridx int) {
+		if fr.depth >= 4 {
+			e.add("unknown", "the index is handed up through more than 4 call levels", w.Pos(c.Pos()))
+			return
+		}
+		var callees []*ssa.Function
+		if f := c.Call.StaticCallee(); f != nil {
+			if w.InModule(f) && f.Blocks != nil {
+				callees = append(callees, f)
+			}
+		} else if c.Call.IsInvoke() {
+			if n := w.CG().Nodes[c.Parent()]; n != nil {
+				for _, ed := range n.Out {
+					if ed.Site == c && ed.Callee != nil && ed.Callee.Func != nil && w.InModule(ed.Callee.Func) && ed.Callee.Func.Blocks != nil && !an.IsTestSupport(w.FnRel(ed.Callee.Func)) {
+						callees = append(callees, ed.Callee.Func)
+					}
+				}
+			}
+		}
+		if len(callees) == 0 {
+			e.add("unknown", "the index is result #"+fmt.Sprint(ridx)+" of "+w.Info(c).Name+", which cannot be looked into", w.Pos(c.Pos()))
+			return
+		}
+		for _, g := range callees {
+			nf := &c08Frame{fn: g, call: c, parent: fr, depth: fr.depth + 1}
+			for _, r := range c08SuccessReturns(w, g) {
+				if ridx < len(r.Results) {
+					e.index(r.Results[ridx], nf)
+				}
+			}
+		}
+	}
+	switch x := v.(type) {
+	case *ssa.Const:
+		return // constants are C08.R2's business
+	case *ssa.Convert:
+		e.index(x.X, fr)
+	case *ssa.ChangeType:
+		e.index(x.X, fr)
+	case *ssa.Phi:
+		if lp := c08Induction(x); lp != nil {
+			e.position(lp, fr, pos)
+			return
+		}
+		for _, ed := range x.Edges {
+			e.index(ed, fr)
+		}
+	case *ssa.BinOp:
+		if lp := c08LoopOf(x); lp != nil {
+			e.position(lp, fr, pos)
+			return
+		}
+		switch x.Op {
+		case token.ADD, token.SUB, token.MUL, token.QUO, token.REM, token.SHL, token.SHR:
+			derived := false
+			for v2 := range c08Slice(x.X, x.Y) {
+				switch y := v2.(type) {
+				case *ssa.BinOp:
+					if c08LoopOf(y) != nil {
+						derived = true
+					}
+				case *ssa.Phi:
+					if c08Induction(y) != nil {
+						derived = true
+					}
+				case *ssa.Call:
+					derived = true
+				case *ssa.Extract:
+					if nx, ok := y.Tuple.(*ssa.Next); ok && nx != nil {
+						derived = true
+					}
+				}
+			}
+			if derived {
+				e.add("bad", "the reported index is computed by arithmetic ("+w.Term(x)+") from a position / a located index: it is no longer the position of the output in the transaction", pos)
+			} else {
+				e.add("unknown", "the reported index is a computed value "+w.Term(x), pos)
+			}
+		default:
+			e.add("unknown", "the reported index is a computed value "+w.Term(x), pos)
+		}
+	case *ssa.Extract:
+		switch t := x.Tuple.(type) {
+		case *ssa.Call:
+			enter(t, x.Index)
+		case *ssa.Next:
+			if lp := c08LoopOf(x); lp != nil {
+				e.position(lp, fr, pos)
+			} else {
+				e.add("unknown", "the reported index is the element, not the key, of a range loop", pos)
+			}
+		default:
+			e.add("unknown", fmt.Sprintf("the reported index comes from a %T", x.Tuple), pos)
+		}
+	case *ssa.Call:
+		enter(x, 0)
+	case *ssa.UnOp:
+		if x.Op == token.MUL {
+			if al, ok := x.X.(*ssa.Alloc); ok {
+				vals, _, okr := c08ReachingStores(al, x)
+				if !okr {
+					e.add("unknown", "the reported index is held in a variable whose address escapes", pos)
+					return
+				}
+				for _, sv := range vals {
+					e.index(sv, fr)
+				}
+				return
+			}
+		}
+		e.add("unknown", "the reported index is loaded from "+w.Term(x), pos)
+	case *ssa.Parameter:
+		if a, pf := e.bind(x, fr); a != nil {
+			e.index(a, pf)
+		} else {
+			e.add("unknown", "the reported index is parameter "+x.Name()+" of "+w.FuncName(fr.fn), pos)
+		}
+	default:
+		e.add("unknown", fmt.Sprintf("the reported index is a %T (%s)", v, w.Term(v)), pos)
+	}
+}
+
+// position: the index is the position in the collections of lp; each must be the
+// transaction's own output list.
+func (e *c08IdxEval) position(lp *c08Loop, fr *c08Frame, pos string) {
+	seen := map[ssa.Value]bool{}
+	for _, ov := range lp.over {
+		if !seen[ov] {
+			seen[ov] = true
+			e.list(ov, fr, pos, 0)
+		}
+	}
+}
+
+// list decides where the searched collection comes from.
+func (e *c08IdxEval) list(v ssa.Value, fr *c08Frame, lpos string, hops int) {
+	w := e.w
+	if hops > 12 {
+		e.add("unknown", "the searched list is passed along too many steps", lpos)
+		return
+	}
+	pos := lpos
+	if in, ok := v.(ssa.Instruction); ok && in.Pos().IsValid() {
+		pos = w.Pos(in.Pos())
+	}
+	isList := func(t types.Type) bool {
+		switch t.Underlying().(type) {
+		case *types.Slice, *types.Array:
+			return true
+		}
+		return false
+	}
+	fieldOK := func(t types.Type, idx int) {
+		e.add("ok", "position in "+an.FieldName(t, idx)+" in "+w.FuncName(fr.fn), pos)
+	}
+	switch x := v.(type) {
+	case *ssa.ChangeType:
+		e.list(x.X, fr, lpos, hops+1)
+	case *ssa.UnOp:
+		if x.Op != token.MUL {
+			e.add("unknown", "the searched list is "+w.Term(x), pos)
+			return
+		}
+		switch a := x.X.(type) {
+		case *ssa.FieldAddr:
+			if isList(x.Type()) {
+				fieldOK(a.X.Type(), a.Field)
+			} else {
+				e.add("unknown", "the searched collection "+w.Term(x)+" is not a list", pos)
+			}
+		case *ssa.Alloc:
+			vals, zero, okr := c08ReachingStores(a, x)
+			if !okr || zero {
+				e.add("unknown", "the searched list is held in a variable the rule cannot follow", pos)
+				return
+			}
+			for _, sv := range vals {
+				e.list(sv, fr, lpos, hops+1)
+			}
+		default:
+			e.add("unknown", "the searched list is loaded from "+w.Term(x), pos)
+		}
+	case *ssa.Field:
+		if isList(x.Type()) {
+			fieldOK(x.X.Type(), x.Field)
+		} else {
+			e.add("unknown", "the searched collection "+w.Term(x)+" is not a list", pos)
+		}
+	case *ssa.Parameter:
+		if a, pf := e.bind(x, fr); a != nil {
+			e.list(a, pf, lpos, hops+1)
+		} else {
+			e.add("unknown", "the searched list is parameter "+x.Name()+" of "+w.FuncName(fr.fn)+", whose argument is not known on this path", pos)
+		}
+	case *ssa.Phi:
+		for _, ed := range x.Edges {
+			e.list(ed, fr, lpos, hops+1)
+		}
+	case *ssa.Slice:
+		if x.Low != nil {
+			if k, ok := an.ConstInt(x.Low); !ok || k != 0 {
+				e.add("bad", "the searched list is a re-slice ("+w.Term(x.X)+"[low:]) of the output list: positions in it are shifted against the transaction's output indices", pos)
+				return
+			}
+		}
+		e.list(x.X, fr, lpos, hops+1)
+	case *ssa.MakeSlice:
+		e.add("bad", "the searched list is a newly made slice (a filtered / rebuilt copy of the outputs), so the reported position is not the output's index in the transaction", pos)
+	case *ssa.Alloc:
+		e.add("bad", "the searched list is a locally built array/slice literal, not the transaction's output list", pos)
+	case *ssa.Call:
+		ci := w.Info(x)
+		switch {
+		case ci.Name == "builtin:append":
+			e.add("bad", "the searched list is built with append (a filtered / rebuilt copy of the outputs), so the reported position is not the output's index in the transaction", pos)
+		case ci.Static != nil && w.InModule(ci.Static) && ci.Static.Blocks != nil && fr.depth < 4:
+			nf := &c08Frame{fn: ci.Static, call: x, parent: fr, depth: fr.depth + 1}
+			for _, r := range an.Returns(ci.Static) {
+				if r.Block() != ci.Static.Recover && len(r.Results) > 0 && !an.IsNilConst(r.Results[0]) {
+					e.list(r.Results[0], nf, lpos, hops+1)
+				}
+			}
+		default:
+			e.add("unknown", "the searched list is the result of "+ci.Name, pos)
+		}
+	case *ssa.Extract:
+		if cc, ok := x.Tuple.(*ssa.Call); ok {
+			ci := w.Info(cc)
+			if ci.Static != nil && w.InModule(ci.Static) && ci.Static.Blocks != nil && fr.depth < 4 {
+				nf := &c08Frame{fn: ci.Static, call: cc, parent: fr, depth: fr.depth + 1}
+				for _, r := range c08SuccessReturns(w, ci.Static) {
+					if x.Index < len(r.Results) {
+						e.list(r.Results[x.Index], nf, lpos, hops+1)
+					}
+				}
+				return
+			}
+			e.add("unknown", "the searched list is a result of "+ci.Name, pos)
+			return
+		}
+		e.add("unknown", "the searched list is "+w.Term(x), pos)
+	default:
+		e.add("unknown", fmt.Sprintf("the searched list is a %T (%s)", v, w.Term(v)), pos)
+	}
+}
+
+// c08ImplIndex: R6 for one CreateOpeningTransaction implementation; returns 1 when a loop index was reached.
+func c08ImplIndex(c *an.Check, fn *ssa.Function) int {
+	w := c.W
+	cons := w.FuncName(fn) + " vout index"
+	ev := &c08IdxEval{w: w, seen: map[[2]interface{}]bool{}}
+	top := &c08Frame{fn: fn}
+	rets := c08SuccessReturns(w, fn)
+	for _, r := range rets {
+		if c08ResVout < len(r.Results) {
+			ev.index(r.Results[c08ResVout], top)
+		}
+	}
+	pos := w.Pos(fn.Pos())
+	if len(rets) > 0 {
+		pos = c08RetPos(w, rets[0])
+	}
+	var oks, bads, unks []string
+	for _, v := range ev.out {
+		t := v.text + " (" + v.pos + ")"
+		switch v.kind {
+		case "ok":
+			oks = append(oks, t)
+		case "bad":
+			bads = append(bads, t)
+		default:
+			unks = append(unks, t)
+		}
+	}
+	switch {
+	case len(bads) > 0:
+		c.Bad("C08.R6", cons, pos, "the vout announced in opening_tx_broadcasted is not the position of the swap output in the broadcast transaction: "+strings.Join(bads, "; ")+". With an output in front of the swap output that the search skips or shifts over (e.g. [fee, swap, change]) script_out names a different output than the one the blinding key unblinds")
+		return 1
+	case len(unks) > 0:
+		c.Unknown("C08.R6", cons, pos, strings.Join(unks, "; "))
+		return 1
+	case len(oks) > 0:
+		sort.Strings(oks)
+		c.OK("C08.R6", cons, pos, "reported index = unmodified "+strings.Join(oks, "; "))
+		return 1
+	}
+	// only constants (or nothing) reach the result: that is C08.R2's finding, nothing to say here
+	return 0
 }
